@@ -161,6 +161,22 @@ func buildPool(root string, seed uint64, corrupt, churn, large int) error {
 		}
 		p.inputs = append(p.inputs, input{text: txt, origin: "sibling:" + src.origin, entry: e, paths: src.paths, family: src.family, class: clsSibling})
 	}
+	// same-length siblings of damaged and of large inputs too (an erroneous text of a kilobyte
+	// or more and an equally long one with another line structure)
+	nBefore := len(p.inputs)
+	made := 0
+	for i := 0; i < nBefore && made < corrupt/3; i++ {
+		src := p.inputs[i]
+		if src.class != clsCorrupt || len(src.text) < 600 {
+			continue
+		}
+		txt := siblingText(rng, src.text)
+		if txt == src.text {
+			continue
+		}
+		made++
+		p.inputs = append(p.inputs, input{text: txt, origin: "sibling:" + src.origin, entry: src.entry, paths: src.paths, family: src.family, class: clsSibling})
+	}
 	// normalisation siblings: texts that differ in raw form but collide under a plausible
 	// normalised key (unquoted name, upper-cased word, string value, token sequence)
 	for i := 0; i < corrupt/2; i++ {
@@ -227,6 +243,17 @@ func buildPool(root string, seed uint64, corrupt, churn, large int) error {
 			family: int32(len(p.inputs)), class: clsLarge})
 	}
 
+	// same-length siblings of the large inputs (another line structure, same length)
+	nLarge := len(p.inputs)
+	for i := 0; i < nLarge; i++ {
+		src := p.inputs[i]
+		if src.class != clsLarge || len(src.text) > 70000 {
+			continue
+		}
+		if txt := siblingText(rng, src.text); txt != src.text {
+			p.inputs = append(p.inputs, input{text: txt, origin: "sibling:large", entry: src.entry, paths: src.paths, family: src.family, class: clsLarge})
+		}
+	}
 	// views: prefixes that SHARE MEMORY with the text they are cut from (Go substrings: same
 	// start address, other length), same paths - what a caller does who parses pieces of one
 	// buffer (SplitRawStatements hands out such substrings), and what a cache keyed by the
@@ -540,7 +567,7 @@ func normSibling(r *rng, s string) string {
 			m := w.lo + r.intn(w.hi-w.lo+1)
 			return s[:m] + ins + s[m:]
 		case 9: // the same inside a string literal or a comment
-			ins := []string{"é", "\xff\xfe", "\x00", "\r", "\u2029", "𝔘"}[r.intn(6)]
+			ins := []string{"é", "\xff\xfe", "\x00", "\r", "\u2029", "𝔘", "\u00a0", "\u00ad", "\u0085", "\\xa0\\xad", "\\u00a0"}[r.intn(11)]
 			if len(strs) > 0 && r.intn(2) == 0 {
 				w := strs[r.intn(len(strs))]
 				return s[:w.lo+1] + ins + s[w.lo+1:]
